@@ -264,6 +264,12 @@ Section OpsTotal.
   Lemma inv_ieco n d b : inv n d -> inv n (d <| d_ieco := b |>).
   Proof. intros [(H1 & H2 & H3 & H4) Hn]. destruct d. split; [repeat split; assumption|exact Hn]. Qed.
 
+  Lemma inv_legacy n d own v : inv n d -> own < 256 -> inv n (legacy_breeze own v d).
+  Proof.
+    intros H Ho. unfold legacy_breeze. destruct (negb (v =? 0)); [apply inv_breeze; assumption|].
+    destruct (d_breeze d =? own); [apply inv_breeze; [exact H|vm_compute; reflexivity]|exact H].
+  Qed.
+
   Lemma breeze_val_small v : (if mem v BreezeMode_values then v else BreezeMode_OFF) < 256.
   Proof.
     unfold mem. destruct (existsb (N.eqb v) BreezeMode_values) eqn:E; [|vm_compute; reflexivity].
@@ -289,11 +295,9 @@ Section OpsTotal.
     all: destruct (pdict_get p PropertyId_BREEZE_CONTROL) as [v4|];
       [apply inv_breeze with (v := if mem v4 BreezeMode_values then v4 else BreezeMode_OFF) in H; [|apply breeze_val_small]
       |destruct (pdict_get p PropertyId_BREEZE_AWAY) as [v5|];
-        [apply inv_breeze with (v := if v5 =? 0 then BreezeMode_OFF else BreezeMode_BREEZE_AWAY) in H;
-         [|destruct (v5 =? 0); vm_compute; reflexivity]|];
+        [apply inv_legacy with (own := BreezeMode_BREEZE_AWAY) (v := v5) in H; [|vm_compute; reflexivity]|];
        (destruct (pdict_get p PropertyId_BREEZELESS) as [v6|];
-        [apply inv_breeze with (v := if v6 =? 0 then BreezeMode_OFF else BreezeMode_BREEZELESS) in H;
-         [|destruct (v6 =? 0); vm_compute; reflexivity]|])].
+        [apply inv_legacy with (own := BreezeMode_BREEZELESS) (v := v6) in H; [|vm_compute; reflexivity]|])].
     all: destruct (pdict_get p PropertyId_IECO) as [v7|]; [apply inv_ieco with (b := negb (v7 =? 0)) in H|]; exact H.
   Qed.
 
